@@ -484,7 +484,46 @@ func (bs *blockState) storeTo(lv lvalue, v Val, ins ssa.Instruction) {
 func (bs *blockState) store(x *ssa.Store) {
 	lv := bs.lval(x.Addr)
 	v := bs.val(x.Val)
+	name, ord := bs.e.storeOrd(x)
+	if name != "" && bs.e.spec != nil && len(bs.e.spec.Ghost) > 0 {
+		bs.ghostAt(fmt.Sprintf("store %s#%d before", name, ord), x, map[string]Val{"value": v})
+	}
 	bs.storeTo(lv, v, x)
+	if name != "" && bs.e.spec != nil && len(bs.e.spec.Ghost) > 0 {
+		bs.ghostAt(fmt.Sprintf("store %s#%d after", name, ord), x, map[string]Val{"value": v})
+	}
+}
+
+// storeOrd names an assignment for ghost anchors `store <name>#k before|after`: the local variable or
+// field assigned, and its ordinal among the assignments to that name in block order.
+func (e *Enc) storeOrd(x *ssa.Store) (string, int) {
+	nameOf := func(s *ssa.Store) string {
+		switch a := s.Addr.(type) {
+		case *ssa.Alloc:
+			return a.Comment
+		case *ssa.FieldAddr:
+			return a.X.Type().Underlying().(*types.Pointer).Elem().Underlying().(*types.Struct).Field(a.Field).Name()
+		case *ssa.FreeVar:
+			return a.Name()
+		}
+		return ""
+	}
+	name := nameOf(x)
+	if name == "" {
+		return "", 0
+	}
+	n := 0
+	for _, b := range e.fn.Blocks {
+		for _, ins := range b.Instrs {
+			if s, ok := ins.(*ssa.Store); ok && nameOf(s) == name {
+				n++
+				if s == x {
+					return name, n
+				}
+			}
+		}
+	}
+	return name, 0
 }
 
 func (bs *blockState) unop(x *ssa.UnOp) {
